@@ -48,6 +48,12 @@ def u64_universes():
     out.append(U("g4-leaf-split", [],
                  [key(7, 7, 7, 7, 7, 7, 7, 7)] + [key(*([7] * j + [8])) for j in range(0, 8)] + [key(7, 7, 7, 7, 7, 7, 7, 9)],
                  probes=[key(7, 7, 7, 7, 6)], variants=(0,)))
+    # G5: the geometry of G3/G4 with pairwise distinct bytes (prefix 01 02 03 04 05 06 07): a prefix handled at the wrong
+    # offset, with the wrong shift or from the wrong end cannot hide behind equal bytes
+    d7 = [1, 2, 3, 4, 5, 6, 7]
+    out.append(U("g5-distinct-bytes", [key(*(d7 + [8])), key(*(d7 + [9]))],
+                 [key(*(d7[:j] + [0xf0 + j])) for j in range(0, 7)] + [key(*(d7 + [0x0a])), key(*(d7[:3] + [0xf3, 1]))],
+                 probes=[key(1, 2, 3, 4, 0x55)], variants=(1,)))
     # three levels, inner nodes with prefixes of different lengths
     out.append(U("three-level", [key(1, 1, 1), key(2)],
                  [key(1, 1, 2), key(1, 2, 1), key(1, 2, 2), key(1, 1, 1, 0, 0, 0, 0, 1), key(3), key(1, 3), key(1, 1, 3), key(1, 2, 1, 1),
@@ -111,6 +117,11 @@ def kv_universes(keygen=None):
     # eight-byte keys (same geometry as uint64)
     out.append(U("kv8-prefix-split", [k for k in g1([1, 2])], [key(*([0] * j + [9])) for j in range(0, 7)] + g1([3]),
                  probes=[key(0, 0, 0, 0, 5)], variants=(1,), kind="kv"))
+    # the same with pairwise distinct bytes (see g5-distinct-bytes)
+    d7 = [1, 2, 3, 4, 5, 6, 7]
+    out.append(U("kv8-distinct-bytes", [key(*(d7 + [8])), key(*(d7 + [9]))],
+                 [key(*(d7[:j] + [0xf0 + j])) for j in range(0, 7)] + [key(*(d7 + [0x0a]))],
+                 probes=[key(1, 2, 3, 4, 0x55)], variants=(1,), kind="kv"))
     # twelve-byte keys: the uint64 geometry with a four-byte tail (shared runs <= 7 below every node)
     g2 = [key(3)] + [key(1, 0, 0, 0, 0, 0, 0, x) for x in (1, 2, 3, 4, 5)] + [key(2, 0, 0, 0, 0, 0, 0, 1), key(2, 0, 0, 0, 0, 0, 0, 2), key(4)]
     g2 = [_stretch(k, 12) for k in g2]
